@@ -118,6 +118,13 @@ def run(ctx):
         if adt is None:
             raise AnchorMissing(adtp)
         c13.v_ladder(ctx, tname, adtp, max(len(v["fields"]) for v in adt["variants"]))
+    # component order is preserved end to end (formatter, templates, parsers, fold, accessors)
+    import maps as _maps
+    _maps.rule_O_ORDER(ctx)
+    # a bracketed-number alternative whose opening keyword can also start a term must not leave its slot filled when it backs off:
+    # a stale (empty) budget turns the sentence into a task in the enum parser only (seeds c01-b/c, c15-d)
+    import c01 as _c01, tables as _tables
+    _c01.x_conflict(ctx, _tables.Tables(ctx))
     ctx.undecided = ["equality of the two pipelines' values on every string (nesting, leniency on malformed input)"]
     ctx.assumptions = ["rustc HIR/name resolution is correct", "nar_dev_utils 0.42.3 dictionary semantics as read from its source"]
     ctx.trusted = ["rustc nightly front end (HIR, typeck)", "mirfacts driver", "python rule layer"]
